@@ -83,6 +83,8 @@ def h_chunk(f, ns, sched, start='zero', pastify=False, oracle='both', grid=None,
     from .c16 import dense_hor
     h = dense_hor(f) if pastify else 0
 
+    uf = refsem.has(f, {'pow', 'div', 'sqrt', 'exp', 'ln', 'log'})
+
     def body(env):
         A = env.A
         kw = {}
@@ -91,6 +93,10 @@ def h_chunk(f, ns, sched, start='zero', pastify=False, oracle='both', grid=None,
             kw = dict(io=io, semantics=_sem(sem))          # an interface-aware semantics: chunking must not matter there either
         son = ct.make_spec('combined' if sem else 'online~', 'out = ' + text(f), vs, pastify=pastify, **kw)
         sigs = {v: ct.signal(env, v, n, start, grid=(grids[k] if grids else grid)) for k, (v, n) in enumerate(zip(vs, ns))}
+        if uf:
+            for v in vs:
+                for smp in sigs[v]:
+                    env.assume(A.And(A.le(2, smp[1]), A.le(smp[1], 8)))          # pow/div/...: operands inside the domain of the function
         outs = []
         U = len(sched[0])
         for u in range(U):
@@ -132,6 +138,7 @@ def h_chunk(f, ns, sched, start='zero', pastify=False, oracle='both', grid=None,
                 want = symx.memo(env, cache, 'want', lambda: refct.ref_unary(A, op, sigs['x'], tau, a, b))
             res.append(('rho_ct', A.eq(got, want)))
         return res
+    body.uf = uf
     return body
 
 
@@ -252,12 +259,15 @@ def obligations(tier, rng):
     ahead_p = [('always_t', AB, 0, 2), ('eventually_t', ('sub', X, Y), 1, 2)]
     scheds = [[[[0, 1, 2], [3], []], [[0], [1, 2], [3]]],          # x ahead of y
               [[[0], [1], [2, 3]], [[0, 1, 2], [], [3]]],          # y ahead of x
-              [[[0, 1], [], [2, 3]], [[0], [1, 2, 3], []]]]
+              [[[0, 1], [], [2, 3]], [[0], [1, 2, 3], []]],
+              [[[0, 1], [2], [3]], [[0, 1], [2, 3], []]],          # one operand's batch ends where the other one's batch starts
+              [[[0, 1], [2, 3], []], [[0, 1], [2], [3]]]]
     # every binary dense online operation directly over two variables of which one lags behind for one update
     ahead += [(k, X, Y) for k in BIN if k != 'since' or not quick]
+    ahead += [('pow', X, Y), ('div', X, Y), ('once_t', ('geq', ('pow', X, Y), ('const', 4.0)), 0, 1)]        # arithmetic with both operands varying
     for fam, fs, pst in (('ahead', ahead, False), ('aheadp', ahead_p, True)):
         for f in fs:
-            for sc in (scheds[:2] if quick else scheds):
+            for sc in ((scheds[:2] + (scheds[3:] if f[0] in ('pow', 'sub', 'and') else [])) if quick else scheds):
                 out.append(ob('C05', 'chunk', '%s/%s/grid=0,1,2,3/%s' % (fam, text(f), _sname(sc)), f=f, ns=[4, 4], sched=sc, pastify=pst, oracle='offline',
                               grid=[0, 1, 2, 3], max_paths=40000, wall=900))
     # operands that START at different instants (one sensor comes up later): batches in which the two operands of a binary operation do not
